@@ -695,6 +695,9 @@ def enter (env : Env) (s : Runtime) (string : Str) : Runtime :=
       let line := env.lex string
       if line.number.isNone then
         if line.tokens.isEmpty then s else enterDirect s line
+      else if RStd.utf8Len (printLine line.number line.tokens) > Gen.maxLineLen then
+        -- fix D19: the LISTED line must fit the line buffer too, or it could not be entered/loaded again
+        { s with state := .runtimeError (Error.mk' Code.lineBufferOverflow) }
       else enterIndirect s line
 
 /-- `Runtime::interrupt` -/
